@@ -2,6 +2,7 @@
 //! implementation built from /repo with --cfg minimq_verif.  The same lines are evaluated by the Coq model.
 mod codec;
 mod gen_codec;
+mod gen_sess;
 mod rng;
 mod sess;
 mod tok;
@@ -49,6 +50,7 @@ fn main() {
                 "reader" => gen_codec::reader_cases(&mut r, count),
                 "valid" => gen_codec::valid_table(),
                 "encode" => gen_codec::encode_cases(&mut r, count),
+                "sess_random" => gen_sess::sess_random(&mut r, count),
                 _ => panic!("unknown suite"),
             };
             let out = std::io::stdout();
